@@ -246,6 +246,11 @@ func c16(c *core.Ctx, r *core.Report) {
 		exits := an.PathCount(setup, an.CallWeight(isRec, 1))
 		tot, ok := an.Total(exits, false)
 		r.Check(ok && tot.Lo == 1 && tot.Hi == 1, core.FuncName(setup)+"#one-sample", c.Pos(setup.Pos()), "RecordSetupResult exactly once on every path", "RecordSetupResult executed "+tot.String()+" times per Setup")
+		// and Setup itself runs exactly once per run
+		do, setupCall := runDo(c)
+		dexits := an.PathCount(do, an.CallWeight(func(_ ssa.CallInstruction, t *ssa.Function) bool { return t == setup }, flatDepth))
+		dtot, dok := an.Total(dexits, false)
+		r.Check(dok && dtot.Lo == 1 && dtot.Hi == 1, core.FuncName(do)+"#setup-once", an.Pos(c, setupCall), "Setup (and with it the setup sample) runs exactly once per run", "Setup runs "+dtot.String()+" times per run: the setup metric holds more than one sample")
 		for _, call := range an.AllCalls(setup) {
 			if !isRec(call, an.Callee(call)) {
 				continue
